@@ -89,9 +89,9 @@ Qed.
 Section Scan.
 Variable page : list row -> flt -> nat -> list row.
 Hypothesis page_in : forall db f n r, In r (page db f n) -> In r db /\ matches f r = true.
-Hypothesis page_closed : forall db f n r r',
+Hypothesis page_closed : forall db f n r r', NoDup (map uuid db) ->
   In r db -> matches f r = true -> In r' (page db f n) -> key_lt r r' -> In r (page db f n).
-Hypothesis page_sorted : forall db f n, StronglySorted key_lt (page db f n).
+Hypothesis page_sorted : forall db f n, NoDup (map uuid db) -> StronglySorted key_lt (page db f n).
 Hypothesis page_nonempty : forall db f n r,
   1 <= n -> In r db -> matches f r = true -> page db f n <> [].
 
@@ -209,7 +209,7 @@ Proof.
         -- apply Hnin. apply Hpre; auto.
         -- subst r. apply NE; reflexivity.
         -- (* r after c in a sorted list: contradiction with key_lt r c *)
-           pose proof (page_sorted db (cur s0) n) as Hs. rewrite Hpg in Hs.
+           pose proof (page_sorted db (cur s0) n Hnd) as Hs. rewrite Hpg in Hs.
            rewrite <- app_assoc in Hs; simpl in Hs.
            assert (Hs2 : StronglySorted key_lt (c :: suf)).
            { clear - Hs. induction pre as [|p pre IHp]; simpl in Hs; [exact Hs|].
